@@ -1110,8 +1110,27 @@ End Sim.
 Lemma suffixes_ok : suffixes_ok_b = true.
 Proof. vm_compute. reflexivity. Qed.
 
+Lemma pos_size_nat_lt p : forall k, (Pos.size_nat p <= k)%nat <-> Npos p < 2 ^ N.of_nat k.
+Proof.
+  induction p as [p IH|p IH|]; intros k; cbn [Pos.size_nat].
+  - destruct k as [|k]; [split; [lia|]; cbn; lia|].
+    rewrite Nat2N.inj_succ, N.pow_succ_r', <- Nat.succ_le_mono, IH. lia.
+  - destruct k as [|k]; [split; [lia|]; cbn; lia|].
+    rewrite Nat2N.inj_succ, N.pow_succ_r', <- Nat.succ_le_mono, IH. lia.
+  - destruct k as [|k]; [split; [lia|]; cbn; lia|].
+    rewrite Nat2N.inj_succ, N.pow_succ_r'.
+    assert (0 < 2 ^ N.of_nat k) by (apply N.neq_0_lt_0; apply N.pow_nonzero; lia). lia.
+Qed.
+
+Lemma fits64_lt n : fits64 n = true <-> n < two64.
+Proof.
+  unfold fits64. rewrite Nat.leb_le. destruct n as [|p]; cbn [N.size_nat].
+  - split; [intros _; reflexivity|lia].
+  - rewrite pos_size_nat_lt. reflexivity.
+Qed.
+
 Lemma u64_val_lt i : u64_val i < two64.
-Proof. destruct i as [n H]. cbn. now apply N.ltb_lt. Qed.
+Proof. destruct i as [n H]. cbn. now apply fits64_lt. Qed.
 
 Lemma u64_ext i j : u64_val i = u64_val j -> i = j.
 Proof.
@@ -1125,13 +1144,13 @@ Proof.
 Qed.
 
 Lemma mk_u64_val n i : mk_u64 n = Some i -> u64_val i = n.
-Proof. unfold mk_u64. destruct (bool_dec (n <? two64) true); intros H; inversion H. reflexivity. Qed.
+Proof. unfold mk_u64. destruct (bool_dec (fits64 n) true); intros H; inversion H. reflexivity. Qed.
 
 Lemma mk_u64_of i : mk_u64 (u64_val i) = Some i.
 Proof.
-  unfold mk_u64. destruct (bool_dec (u64_val i <? two64) true) as [H|H].
+  unfold mk_u64. destruct (bool_dec (fits64 (u64_val i)) true) as [H|H].
   - apply (f_equal Some). now apply u64_ext.
-  - exfalso. apply H. apply N.ltb_lt. apply u64_val_lt.
+  - exfalso. apply H. apply fits64_lt. apply u64_val_lt.
 Qed.
 
 Lemma is_bytes_all k : is_bytes k = true <-> all_bytes k.
@@ -1719,25 +1738,43 @@ Proof. vm_compute. repeat split. Qed.
 Definition bq_unfitted : bq_item := mkBq [1065353216] [] false.
 Definition bq_fit (v : bq_item) : bq_item := mkBq (bq_vec v) [1] true.
 Definition bq_fit_history : list (txn binary_inst) :=
-  [ mkTxn false [OPut id1 bq_unfitted] TWrite;                (* stored before the quantiser is fitted: 'v' *)
-    mkTxn false [OModify id1 bq_fit] TWrite ].                 (* Fit re-encodes in place: 'q' written, 'v' stays *)
+  [ @mkTxn binary_inst false [@OPut binary_inst id1 bq_unfitted] TWrite;                (* stored before the quantiser is fitted: 'v' *)
+    @mkTxn binary_inst false [@OModify binary_inst id1 bq_fit] TWrite ].                 (* Fit re-encodes in place: 'q' written, 'v' stays *)
+
+Ltac eval_run_txn :=
+  match goal with
+  | |- context [run_txn ?S ?B ?t ?c ?b] =>
+      let r := fresh "r" in set (r := run_txn S B t c b); vm_compute in r; subst r; cbv beta iota
+  end.
+
+Lemma bq_fit_history_wf : wf_txs binary_inst AL binary_spec bq_fit_history c_empty [].
+Proof.
+  unfold bq_fit_history. cbn [wf_txs]. split.
+  - split; [|discriminate]. cbn [wf_run t_ops t_drop wf_op]. split; [|exact I].
+    cbn [binary_spec binary_spec_with sp_valid]. unfold bq_valid, bq_unfitted. cbn [bq_vec bq_code].
+    split; [repeat constructor|]. split; [constructor|]. right. split; [discriminate|reflexivity].
+  - eval_run_txn. split; [|exact I]. split; [|discriminate].
+    cbn [wf_run t_ops t_drop wf_op]. split; [|exact I]. split.
+    + intros v v' _. reflexivity.
+    + intros v Hv. vm_compute in Hv. injection Hv as <-.
+      right. split; [reflexivity|].
+      cbn [binary_spec binary_spec_with sp_valid]. unfold bq_valid, bq_fit. cbn [bq_vec bq_code].
+      split; [repeat constructor|]. split; [repeat constructor|]. left. discriminate.
+Qed.
 
 Lemma binary_count_witness :
   let '(c, b, _) := run_txs binary_inst AL bq_fit_history c_empty [] in
-  wf_txs binary_inst AL binary_spec bq_fit_history c_empty [] /\
   c_count binary_inst AL c_empty b = 2%nat /\
   length (snd (fst (c_foreach binary_inst AL c_empty b))) = 1%nat /\
   c_count binary_inst AL c b = 1%nat /\
   ~ enum_unique binary_inst (al_get b).
 Proof.
-  vm_compute. split; [|split; [reflexivity|split; [reflexivity|split; [reflexivity|]]]].
-  - split; [|exact I]. split; [|split; [exact I|discriminate]]. split; [|exact I].
-    split; [constructor; [vm_compute; reflexivity|constructor]|]. split; [constructor|].
-    right. split; [discriminate|reflexivity].
-  - intros Hu.
-    specialize (Hu (nkey id1 sfx_q) (nkey id1 sfx_v) id1).
-    assert (E : nkey id1 sfx_q = nkey id1 sfx_v); [|apply nkey_inj in E; destruct E; discriminate].
-    apply Hu; vm_compute; congruence.
+  set (r := run_txs binary_inst AL bq_fit_history c_empty []). vm_compute in r. subst r. cbv beta iota.
+  split; [vm_compute; reflexivity|]. split; [vm_compute; reflexivity|]. split; [vm_compute; reflexivity|].
+  intros Hu.
+  specialize (Hu (nkey id1 sfx_q) (nkey id1 sfx_v) id1).
+  assert (E : nkey id1 sfx_q = nkey id1 sfx_v); [|apply nkey_inj in E; destruct E; discriminate].
+  apply Hu; vm_compute; congruence.
 Qed.
 
 (* --- posting sets cannot be enumerated: an absent term reads as the empty set --- *)
@@ -1761,8 +1798,8 @@ Proof. vm_compute. repeat split. Qed.
 Definition vecA : list N := [1065353216].      (* 1.0 *)
 Definition vecB : list N := [1073741824].      (* 2.0 *)
 Definition stale_b0 : alist := [(nkey id1 sfx_v, f32s_le vecA)].
-Definition stale_reader : list (op plain_inst) := [OGet id1].
-Definition stale_writer : list (op plain_inst) := [OPut id1 vecB].
+Definition stale_reader : list (op plain_inst) := [@OGet plain_inst id1].
+Definition stale_writer : list (op plain_inst) := [@OPut plain_inst id1 vecB].
 
 Lemma stale_witness :
   let '(cr, b1) := stale_state plain_inst AL stale_reader stale_writer stale_b0 in
@@ -1774,15 +1811,15 @@ Lemma stale_witness :
   ~ inv plain_inst plain_spec cr (al_get b1).
 Proof.
   assert (Hrun : run plain_inst AL stale_reader c_empty stale_b0 =
-                 (mkCache [(id1, (vecA, false, false))] false, stale_b0, [ObsGet (Some vecA)])) by (vm_compute; reflexivity).
-  assert (I0 : inv plain_inst plain_spec (mkCache [(id1, (vecA, false, false))] false) (al_get stale_b0) /\
-               settled plain_inst plain_spec (mkCache [(id1, (vecA, false, false))] false) (al_get stale_b0)).
+                 (@mkCache plain_inst [(id1, (vecA, false, false))] false, stale_b0, [@ObsGet plain_inst (Some vecA)])) by (vm_compute; reflexivity).
+  assert (I0 : inv plain_inst plain_spec (@mkCache plain_inst [(id1, (vecA, false, false))] false) (al_get stale_b0) /\
+               settled plain_inst plain_spec (@mkCache plain_inst [(id1, (vecA, false, false))] false) (al_get stale_b0)).
   { pose proof (run_spec plain_inst AL plain_spec AL_laws plain_laws stale_reader c_empty stale_b0 _ _ _
                   (inv_empty _ _ _) (conj I I) Hrun) as (H1 & _ & _ & H4).
     split; [exact H1|]. destruct (H4 eq_refl) as [_ H5]. apply H5. apply settled_empty. }
   unfold stale_state. rewrite Hrun.
   replace (run_txn plain_inst AL (mkTxn false stale_writer TWrite) c_empty stale_b0)
-    with (mkCache [(id1, (vecB, false, false))] false, [(nkey id1 sfx_v, f32s_le vecB)], [@ObsUnit plain_inst])
+    with (@mkCache plain_inst [(id1, (vecB, false, false))] false, [(nkey id1 sfx_v, f32s_le vecB)], [@ObsUnit plain_inst])
     by (vm_compute; reflexivity).
   destruct I0 as [I0 S0]. split; [exact I0|]. split; [exact S0|].
   split; [vm_compute; reflexivity|]. split; [vm_compute; reflexivity|].
@@ -1799,3 +1836,65 @@ Lemma noscrap_witness :
   absmap plain_inst c (al_get stale_b0) id1 = Some vecB /\
   absmap plain_inst c_empty (al_get stale_b0) id1 = Some vecA.
 Proof. vm_compute. split; reflexivity. Qed.
+
+(* ---- the refutations in the form Props_C08 states them ---- *)
+Lemma binary_idfromkey_refuted :
+  ~ Enumerable binary_inst_v0 /\
+  exists (b : alist) (i : u64id) (v : bq_item),
+    absmap binary_inst_v0 c_empty (al_get b) i = Some v /\
+    fst (c_foreach binary_inst_v0 AL c_empty b) = (true, []) /\
+    c_count binary_inst_v0 AL c_empty b = 0%nat /\
+    fst (c_foreach binary_inst AL c_empty b) = (true, [(i, v)]) /\
+    c_count binary_inst AL c_empty b = 1%nat.
+Proof.
+  split; [exact binary_v0_not_enumerable|].
+  exists bq_cold_bucket, id1, bq_cold_item. exact binary_idfromkey_witness.
+Qed.
+
+Lemma binary_count_refuted :
+  exists ts : list (txn binary_inst),
+    wf_txs binary_inst AL binary_spec ts c_empty [] /\
+    let '(c, b, _) := run_txs binary_inst AL ts c_empty [] in
+    c_count binary_inst AL c_empty b = 2%nat /\
+    length (snd (fst (c_foreach binary_inst AL c_empty b))) = 1%nat /\
+    c_count binary_inst AL c b = 1%nat /\
+    ~ enum_unique binary_inst (al_get b).
+Proof. exists bq_fit_history. split; [exact bq_fit_history_wf|exact binary_count_witness]. Qed.
+
+Lemma stale_refuted :
+  exists (b0 : alist) (reader_ops writer_ops : list (op plain_inst)) (i : u64id),
+    let '(cr, b1) := stale_state plain_inst AL reader_ops writer_ops b0 in
+    inv plain_inst plain_spec cr (al_get b0) /\
+    settled plain_inst plain_spec cr (al_get b0) /\
+    fst (c_get plain_inst AL i cr b1) <> fst (c_get plain_inst AL i c_empty b1) /\
+    nabs plain_inst plain_spec cr (al_get b1) i <> nabs plain_inst plain_spec c_empty (al_get b1) i /\
+    ~ inv plain_inst plain_spec cr (al_get b1).
+Proof.
+  exists stale_b0, stale_reader, stale_writer, id1.
+  pose proof stale_witness as H.
+  destruct (stale_state plain_inst AL stale_reader stale_writer stale_b0) as [cr b1].
+  destruct H as (H1 & H2 & H3 & H4 & H5 & H6). csplit; auto.
+  rewrite H3, H4. vm_compute. discriminate.
+Qed.
+
+Lemma flush_selfdirty_leftover :
+  exists (c : cache binary_inst) (b : alist),
+    inv binary_inst binary_spec c (al_get b) /\
+    let '(c', b') := c_flush binary_inst AL c b in
+    exists i v, c_items c' = [(i, (v, false, false))] /\ st_self_dirty binary_inst v = true /\
+                st_read binary_inst i (al_get b') = Some (sp_norm binary_spec v).
+Proof.
+  exists (c_modify binary_inst AL id1 bq_fit (c_put binary_inst id1 bq_unfitted c_empty) []), [].
+  split.
+  - assert (I1 : inv binary_inst binary_spec (c_put binary_inst id1 bq_unfitted c_empty) (al_get [])).
+    { apply (put_spec binary_inst binary_spec binary_inst_laws); [apply inv_empty|].
+      cbn [binary_spec binary_spec_with sp_valid]. unfold bq_valid, bq_unfitted. cbn [bq_vec bq_code].
+      split; [repeat constructor|]. split; [constructor|]. right. split; [discriminate|reflexivity]. }
+    apply (modify_spec binary_inst AL binary_spec binary_inst_laws _ [] id1 bq_fit I1).
+    intros v Hv. vm_compute in Hv. injection Hv as <-. right. split; [reflexivity|].
+    cbn [binary_spec binary_spec_with sp_valid]. unfold bq_valid, bq_fit. cbn [bq_vec bq_code].
+    split; [repeat constructor|]. split; [repeat constructor|]. left. discriminate.
+  - pose proof selfdirty_leftover_witness as H. cbv zeta in H.
+    destruct (c_flush binary_inst AL _ []) as [c' b']. destruct H as (H1 & H2 & H3).
+    exists id1, (bq_fit bq_unfitted). auto.
+Qed.
